@@ -10,6 +10,7 @@ mod c03;
 mod c04;
 mod c10;
 mod c14;
+mod c14_glue;
 mod c08;
 mod c08_report;
 mod c13;
